@@ -454,6 +454,25 @@ def run(prog, rep, tier='quick', config='default'):
             rep.violation('R2d', 'anchor-lost:tolerance-comparison', fn=val.name, detail='anchor lost: comparison of |computed - specified| with a Decimal constant')
 
 
+def error_only_otherwise(fn, sw, towards):
+    """the branch at block `sw` is a validation: every way out of it that does not lead on to block `towards` ends in an error
+    return (the function's result is only ever set to Err(..) / a propagated residual there) — nothing is skipped silently"""
+    for t in fn.succ.get(sw, []):
+        region = {t} | fn.reachable_from(t)
+        if towards in region:
+            continue
+        if not any(e in region for e in fn.exits):
+            continue        # diverges (panic)
+        for b in region:
+            for st in fn.blocks[b]['stmts']:
+                if st['dst']['l'] == 0 and not (st['r']['rv'] == 'agg' and st['r']['kind'].endswith('Result::Err')):
+                    return False
+            c = fn.call_at.get(b)
+            if c is not None and c.dst['l'] == 0 and c.short != 'from_residual':
+                return False
+    return True
+
+
 def r2k(prog, rep):
     """every capital loss is examined: in the ledger step the superficial-loss examination of a sale is entered exactly when the
     computed capital gain converts to a strictly negative decimal (`NegDecimal::try_from(gain)` is Ok) — the value tested is that
@@ -514,7 +533,7 @@ def r2k(prog, rep):
                 continue
             cmps = [x for x in d.calls if re.search(r'PartialOrd::(lt|le|gt|ge)$|PartialEq::(eq|ne)$|Decimal::(is_zero|is_sign_negative|is_sign_positive)$|::is_negative$|::is_positive$', x.decl + ' ' + x.callee)
                     and any(re.search(r'Decimal', ls.ty.get(a, '') or '') for a in x.arg_locals())]
-            if cmps:
+            if cmps and not error_only_otherwise(ls, sbb, c.bb):
                 amount_tests.append((sbb, cmps[0]))
         k = 'loss-examined-iff-gain-is-negative#%d' % n
         if not loss_tests:
